@@ -9,6 +9,7 @@ spec/Resolve.tla (map model + capacity arithmetic of the formats + code-shaped m
  -> T_Resolve judges every lookup flavour of every probe against the map (binding T).
 """
 import glob, json, os, random
+from concurrent.futures import ThreadPoolExecutor
 from . import lib
 
 MODULE_MC = "MC_Resolve"
@@ -245,9 +246,8 @@ def selftest(ctx, trace, kd):
     del lb[ib]
     pb = ctx.path("selftest_b.ndjson")
     open(pb, "w").write("\n".join(lb) + "\n")
-    va = lib.tlc_trace(ctx, MODULE_T, cfg, pa)
-    vz = lib.tlc_trace(ctx, MODULE_T, cfg, pz)
-    vb = lib.tlc_trace(ctx, MODULE_T, cfg, pb)
+    with ThreadPoolExecutor(max_workers=3) as ex:
+        va, vz, vb = list(ex.map(lambda q: lib.tlc_trace(ctx, MODULE_T, cfg, q), [pa, pz, pb]))
     res = {"corrupt_hit_flagged": va["violations"] == sorted(set(base["violations"]) | {ia + 1}),
            "invented_hit_flagged": vz["violations"] == sorted(set(base["violations"]) | {iz + 1}),
            "drop_one_event_flagged": len(vb["violations"]) > len(base["violations"])}
